@@ -99,11 +99,40 @@ add('C19', 'exploration', 'enumerated + Hypothesis builder->parser round trips; 
     'any wall-clock timeout.',
     'Alert suffix limited to the documented form; scripted socket models recv() returning b"" at end-of-stream.', '5/C19')
 
+SIM_NOTE = ('Trusts the simulation kernel (vf/sim): CPython semantics of Event/Queue/Barrier, lossless ordered in-memory byte '
+            'streams, context switches only at synchronisation operations (partial-order argument, DESIGN.md 4.3); '
+            'generated schedules are a sample of the schedule space.')
+add('C08', 'exploration', 'simulated sessions under generated schedules; model-computed expected log; metamorphic two-schedule byte equality',
+    'sim-sessions',
+    'The real Server, its seat threads and four scripted reference clients run under a schedule-owning kernel; the '
+    'written log is compared field by field with the document computed by the independent models, and a second '
+    'schedule must give a byte-identical file.', SIM_NOTE, '5/C08')
+add('C09', 'exploration', 'schedule-owning simulation: generated schedules (preemption lists, PCT, stalls, random) with deadlock detection',
+    'sim-sessions',
+    'Thread schedules are generated inputs; a lost wake-up shows up deterministically as "no task enabled while one is '
+    'unfinished". Thousands of sessions x schedules per run incl. targeted stalls of every thread. Found and fixed the '
+    'stale-flag barrier deadlock (confirmed on real threads).', SIM_NOTE, '5/C09')
+add('C10', 'exploration', 'simulated sessions: complete per-connection byte streams vs model-computed event sequences',
+    'sim-sessions',
+    'Every line the server sends on each of the four connections is compared, as an event sequence read with '
+    'tolerant readers, with the exact sequence the script entitles that seat to; a global step clock orders the '
+    'disclosure of dummy against the opening lead.', SIM_NOTE, '5/C10')
+add('C13', 'fault_enumeration', 'fault injection into simulated sessions at generated abort points; parse-back oracle',
+    'sim-sessions',
+    'One offending action of each of 10 kinds (or an operator interrupt) is injected at a generated board, phase and '
+    'position under a generated schedule; the output file must parse and hold exactly the finished boards.',
+    SIM_NOTE, '5/C13')
+
 NOT_APPLICABLE = []
 
 ENGINES = [
     {'name': 'enumeration', 'path': 'vf/common/runner.py', 'serves_properties': ['C07', 'C15', 'C16'],
      'kind_free_text': 'complete enumeration of finite domains, sharded over 16 processes'},
+    {'name': 'sim-sessions', 'path': 'vf/sim/',
+     'serves_properties': ['C08', 'C09', 'C10', 'C11', 'C13', 'C19', 'C20'],
+     'kind_free_text': 'deterministic schedule-owning kernel (managed OS threads, one runnable at a time), simulated '
+                       'Event/Queue/Barrier/Lock/Condition/socket/time installed by monkey-patching bridge_env.network_bridge '
+                       'from the harness; schedules, scripts and faults are Hypothesis-generated inputs'},
     {'name': 'hypothesis-inprocess', 'path': 'vf/common/core.py',
      'serves_properties': ['C01', 'C02', 'C03', 'C04', 'C05', 'C06', 'C12', 'C14', 'C17', 'C18', 'C19'],
      'kind_free_text': 'Hypothesis 6.168 (given + RuleBasedStateMachine), seeded from VERIF_SEED, 16 shard processes, '
